@@ -462,7 +462,7 @@ def cx_run(task):
     exe = os.path.join(d, 'cx')
     for attempt in range(6):
         open(os.path.join(d, 'cx_progs.inc'), 'w').write(cx_include(progs))
-        cmd = [cxx, '-std=' + std, '-O0', '-w', '-I', INC, '-I', d, '-DCX_NA=%d' % NA, '-DCX_NB=%d' % NB, '-DCX_ELEM=%d' % elem]
+        cmd = [cxx, '-std=' + std, '-O0', '-w', '-DNDEBUG', '-I', INC, '-I', d, '-DCX_NA=%d' % NA, '-DCX_NB=%d' % NB, '-DCX_ELEM=%d' % elem]
         cmd += ['-fconstexpr-ops-limit=2000000000', '-fconstexpr-loop-limit=10000000'] if cxx.startswith('g++') else ['-fconstexpr-steps=2000000000']
         p = subprocess.run(cmd + ['-o', exe, os.path.join(P.HARNESS, 'cx.cpp')], stdout=subprocess.PIPE, stderr=subprocess.STDOUT)
         if p.returncode == 0:
